@@ -1,7 +1,11 @@
 (* C09 - theorems only.  See DESIGN.md section 6, C09.
-   Model: coq/Sys/Sched.v; regenerated data: coq/Generated/Effects.v (harness/effsum). *)
+   Model: coq/Sys/Sched.v; regenerated data: coq/Generated/Effects.v (harness/effsum) and
+   coq/Generated/SysProgs.v (harness/sysgen: the statement skeleton of layerYZ.Evaluate,
+   evalRoutines and marchingCubes extracted from the current Go source).  Sys/SchedProg.v gives
+   those programs a meaning; the C09_source_* theorems are about the GENERATED programs. *)
 From Coq Require Import List String Bool Arith.
-From Sdfx Require Import Sys.Lockset Sys.Sched Generated.Effects Sys.EffectsC09.
+From Sdfx Require Import Sys.SysLang Sys.Lockset Sys.Sched Generated.Effects Sys.EffectsC09.
+From Sdfx Require Import Sys.PoolProg Sys.SchedProg Generated.SysProgs Sys.SysProgsC09.
 Import ListNotations.
 
 (* The batches layerYZ.Evaluate sends cover the layer exactly, for ANY batch size >= 1 and ANY
@@ -85,6 +89,42 @@ Print Assumptions C09_evaluate_effects_deterministic.
 Theorem C09_batch_size_positive : 1 <= batchSize.
 Proof. exact batch_size_positive. Qed.
 Print Assumptions C09_batch_size_positive.
+
+(* ------------------------------------------------------------------ tie to the source by translation *)
+
+(* The batching loop found in the source, interpreted statement by statement (request creation,
+   reset / append of the point slice, length test, WaitGroup.Add, send, shift of the output
+   slice, the loop over the points of the layer, the final test and Wait): for EVERY layer the
+   requests it sends are Sched.batch_plan with the batch size of the source; every send is
+   preceded by its own Add; the function ends in the Wait. *)
+Theorem C09_source_layer_is_batch_plan : forall (Pt : Type) (points : list Pt),
+  let s := lexec Pt points (strip layerYZ_Evaluate) (linit Pt) in
+  l_sent Pt s = batch_plan Pt batchSize points /\ l_adds Pt s = List.length (l_sent Pt s) /\
+  l_early Pt s = false /\ l_waited Pt s = true /\ l_req Pt s = true.
+Proof. exact source_layer_is_batch_plan. Qed.
+Print Assumptions C09_source_layer_is_batch_plan.
+
+(* evalRoutines found in the source: one goroutine per CPU, each running the receive loop /
+   point loop / store / Done program whose semantics is SchedProg.wstep; marchingCubes itself
+   starts no goroutine. *)
+Theorem C09_source_routines :
+  (strip evalRoutines = [ForCPU [Go worker_prog]] /\ forall ncpu, go_count ncpu (strip evalRoutines) = ncpu) /\
+  (forall ncpu, go_count ncpu (strip marchingCubes) = 0).
+Proof. exact (conj source_routines source_marching_sequential). Qed.
+Print Assumptions C09_source_routines.
+
+(* Any interleaving of the statements of any number of such routines with the sends of this
+   layer and of other renders is a schedule of Sched.v: the machine of the theorems above is
+   what the program text does.  (The Done is reached only when every point of the request has
+   been stored, so the guard of Sched.exec (ADone k) is a consequence, not an assumption.) *)
+Theorem C09_source_workers_refine_sched :
+  forall (Pt Val : Type) (mine : nat) (es : list (event Pt Val)) (y : sys Pt Val),
+    sys_ok Pt Val y ->
+    Forall (fun e => match e with EEnv _ _ a => foreign_ok Pt Val mine a | _ => True end) es ->
+    exists sched, y_s Pt Val (erun Pt Val mine es y) = Sched.run Pt Val mine sched (y_s Pt Val y) /\
+                  Forall (foreign_ok Pt Val mine) sched /\ sys_ok Pt Val (erun Pt Val mine es y).
+Proof. exact workers_refine_sched. Qed.
+Print Assumptions C09_source_workers_refine_sched.
 
 (* non-vacuity: the one-worker schedule finishes a 5-point layer with batch size 2 (3 batches) *)
 Example C09_hyp_satisfiable :
